@@ -63,7 +63,7 @@ func LoadWorld(repo, pkgRel string, harnessFiles []string, tags string) (*World,
 		overlay[filepath.Join(pkgDir, "zz_verif_"+filepath.Base(hf))] = b
 	}
 	cfg := &packages.Config{
-		Mode:    packages.LoadAllSyntax,
+		Mode:    packages.LoadAllSyntax | packages.NeedModule,
 		Dir:     repo,
 		Overlay: overlay,
 		Env:     append(os.Environ(), "GOFLAGS=-mod=mod", "GOPROXY=off", "GOSUMDB=off", "GOTOOLCHAIN=local"),
@@ -179,6 +179,9 @@ func (w *World) denied(name string) bool {
 		return false
 	}
 	p := pkgOfFuncName(name)
+	if p == "net/textproto" || p == "net/url" {
+		return false
+	}
 	for _, d := range deniedPkgs {
 		if p == d || (strings.HasSuffix(d, "/") && strings.HasPrefix(p, d)) || strings.HasPrefix(p, d+"/") {
 			return true
